@@ -74,14 +74,15 @@ pub fn main(args: &[String]) -> i32 {
                 up.push(c);
             }
             Ok(json!({"flat_wo": flat_shape(&wo.verif_dump()), "flat": flat_shape(&co.verif_dump()), "deep": deep_shape(&dd), "up": crate::term::cps(&up),
+                      "vio_wo": plus1(&json!(wo.var_indices_ordered().to_vec())), "vio": plus1(&json!(co.var_indices_ordered().to_vec())),
                       "comp": comp, "steps_wo": reduce_steps(&ev_wo), "steps": reduce_steps(&ev_co), "dcomp": dcomp}))
         });
         let obs = match obs {
             Ok(Ok(v)) => v,
-            _ => json!({"flat_wo": "failed", "flat": "failed", "deep": "failed", "up": "failed", "comp": "failed", "steps_wo": "failed", "steps": "failed", "dcomp": "failed"}),
+            _ => json!({"vio_wo": "failed", "vio": "failed", "flat_wo": "failed", "flat": "failed", "deep": "failed", "up": "failed", "comp": "failed", "steps_wo": "failed", "steps": "failed", "dcomp": "failed"}),
         };
         let mut diff = vec![];
-        for k in ["flat_wo", "flat", "deep", "up", "comp", "steps_wo", "steps", "dcomp"] {
+        for k in ["flat_wo", "flat", "deep", "up", "vio_wo", "vio", "comp", "steps_wo", "steps", "dcomp"] {
             if rec.get(k) != obs.get(k) {
                 diff.push(k);
             }
@@ -91,7 +92,7 @@ pub fn main(args: &[String]) -> i32 {
         } else {
             fwd += 1;
             if fwd <= 50 {
-                let _ = writeln!(out, "{}", json!({"text": uncps(tv), "differs": diff, "model": {"flat_wo": rec.get("flat_wo"), "flat": rec.get("flat"), "deep": rec.get("deep"), "up": rec.get("up"), "comp": rec.get("comp"), "steps_wo": rec.get("steps_wo"), "steps": rec.get("steps"), "dcomp": rec.get("dcomp")}, "code": obs}));
+                let _ = writeln!(out, "{}", json!({"text": uncps(tv), "differs": diff, "model": {"vio_wo": rec.get("vio_wo"), "vio": rec.get("vio"), "flat_wo": rec.get("flat_wo"), "flat": rec.get("flat"), "deep": rec.get("deep"), "up": rec.get("up"), "comp": rec.get("comp"), "steps_wo": rec.get("steps_wo"), "steps": rec.get("steps"), "dcomp": rec.get("dcomp")}, "code": obs}));
             }
         }
     });
